@@ -221,7 +221,9 @@ class _ImmutableTaskList:
             return t.parent.id if t.parent else None
         if attribute_name == 'id':
             return t.id
-        return t.__getattribute__(attribute_name) if attribute_name in t.__dict__ else None
+        if attribute_name in t.__dict__ or attribute_name in ('estimate', 'spent'):
+            return t.__getattribute__(attribute_name)
+        return None
 
     def __call__(
             self,
